@@ -71,6 +71,24 @@ CLAIMED["C09"] = dict(
    note=TRUST + FS + " Not decided here: that the handle is refreshed after a failed Add (reload is trusted) and the retry's update index.",
    design="4/C09", technique="contract-based deductive verification: exact UpToDate postcondition, commit guard")
 
+CLAIMED["C11"] = dict(
+   text=("Deductive proof of the per-step clauses of RefsFor on the real iterators: the indexed iterator returns a record only if its value or "
+         "peeled value equals the object id, with the update index made absolute exactly as the seek iterator does (same stored delta + table minimum); "
+         "the filtering iterator returns only matching records and, on a merged view, only the view's own record of the candidate's name (a deleted or "
+         "re-pointed candidate is skipped, it neither ends the iteration nor is replaced by a neighbour); Merged.RefsFor merges one candidate iterator per "
+         "table and re-checks against the same merged view; Reader.RefsFor never returns a nil iterator and falls back to the scan when the index has no positions."),
+   note=(TRUST + " Not decided: that the object index lists every ref block containing the id (writer side, C14), completeness of the result (no matching ref "
+         "is missed), and that an index whose position list was omitted is never answered with an empty result (seeded mutant C11-A is not caught)."),
+   design="4/C11", technique="contract-based deductive verification: step postconditions with ghost bookkeeping (stored delta, last sought name)")
+CLAIMED["C19"] = dict(
+   text=("Deductive frame proof: every function reachable from Reader/Merged SeekRef, SeekLog, RefsFor and from Iterator.NextRef/NextLog has a modifies "
+         "clause that names no field of Reader, Merged, blockReader, header/footer, a block source or a package variable, and every store, append, copy and callee "
+         "frame in its body is proved to stay inside that clause or in memory allocated by the call itself. So concurrent readers write no shared location."),
+   note=(TRUST + " The ghost models buflen/bufdata/lastDelta/lastSought are specification state, not memory. Not decided: races inside the standard library "
+         "((*os.File).ReadAt is documented safe; a block source that shares a file offset, seeded mutant C19-A, is outside the frame of the package's own stores), "
+         "and determinism of results beyond the functional contracts of C03/C11/C18."),
+   design="4/C19", technique="contract-based deductive verification: frame (modifies) obligations at every store and call")
+
 NOT_APPLICABLE = {
  "C15": "relational property of two programs in two languages; no deductive verifier for C is installed and rtv reads Go SSA only (DESIGN.md section 4/C15)",
 }
